@@ -505,7 +505,9 @@ func runC18(seed int64, n int, tier string, outDir string) (*Report, error) {
 
 	// typed nil pointers of all 14 struct types, on either side and on both
 	for i := 0; i < 14; i++ {
-		plain := func() ap.Item { return &ap.Object{ID: ap.IRI(c18IDs[0][0]), Type: ap.NoteType, Summary: ap.NaturalLanguageValues{{Ref: "-", Value: ap.Content("s")}}} }
+		plain := func() ap.Item {
+			return &ap.Object{ID: ap.IRI(c18IDs[0][0]), Type: ap.NoteType, Summary: ap.NaturalLanguageValues{{Ref: "-", Value: ap.Content("s")}}}
+		}
 		run(c18Pair{TypedNil(i), plain(), "nil:typed-nil-to", true}, idx, true)
 		run(c18Pair{plain(), TypedNil(i), "nil:typed-nil-from", true}, idx+1, true)
 		run(c18Pair{TypedNil(i), TypedNil((i + 3) % 14), "nil:typed-nil-both", true}, idx+2, true)
